@@ -74,6 +74,26 @@ func cmdWorker(args []string) int {
 		pprof.StartCPUProfile(f)
 		defer pprof.StopCPUProfile()
 	}
+	if os.Getenv("VERIF_FORKS") != "" {
+		forkSites = map[string]int{}
+		defer func() {
+			type kv struct {
+				k string
+				v int
+			}
+			var l []kv
+			for k, v := range forkSites {
+				l = append(l, kv{k, v})
+			}
+			sort.Slice(l, func(i, j int) bool { return l[i].v > l[j].v })
+			for i, e := range l {
+				if i >= 25 {
+					break
+				}
+				fmt.Fprintf(os.Stderr, "FORKS %6d %s\n", e.v, e.k)
+			}
+		}()
+	}
 	all, err := scanHarnesses()
 	if err != nil {
 		fmt.Fprintln(os.Stderr, err)
